@@ -266,12 +266,12 @@ theorem qubitAxis_qubit (Lx Ly Lz : Nat) (x y z : Int) (h : [x, y, z] ∈ qubits
     have h3 : z % 2 = 1 := h.2.2.1
     simp [h1, h2, h3]
 
-theorem getDeformation_rule (name axis : String) (loc : Coord) :
-    getDeformation name axis loc =
+theorem getDeformationAt_rule (name axis : String) (loc : Coord) :
+    getDeformationAt name axis loc =
       if axis ≠ "x" ∧ axis ≠ "y" ∧ axis ≠ "z" then none
       else if name ≠ "XZZX" then none
       else (qubitAxis loc).map fun a => if a = axis then PauliMap.swapXZ else PauliMap.id := by
-  unfold getDeformation
+  unfold getDeformationAt
   by_cases hax : axis = "x" ∨ axis = "y" ∨ axis = "z"
   · have h1 : (["x", "y", "z"].contains axis) = true := by
       rcases hax with h | h | h <;> subst h <;> decide
@@ -287,5 +287,13 @@ theorem getDeformation_rule (name axis : String) (loc : Coord) :
   · have h2 : axis ≠ "x" ∧ axis ≠ "y" ∧ axis ≠ "z" := by
       simp only [not_or] at hax; exact hax
     simp [h2]
+
+/-- `get_deformation` with the keyword given (`some axis`) or omitted (`none`: default `'z'`) -/
+theorem getDeformation_rule (name : String) (axis : Option String) (loc : Coord) :
+    getDeformation name axis loc =
+      if axis.getD "z" ≠ "x" ∧ axis.getD "z" ≠ "y" ∧ axis.getD "z" ≠ "z" then none
+      else if name ≠ "XZZX" then none
+      else (qubitAxis loc).map fun a => if a = axis.getD "z" then PauliMap.swapXZ else PauliMap.id :=
+  getDeformationAt_rule name (axis.getD "z") loc
 
 end Panqec.XCubeCode
